@@ -48,7 +48,18 @@ def run_cases(ctx, cases, compare, rng, quick, per_batch=28, nwalk=None, enum_bu
         for c in bcases:
             c.progs = []
             ok = True
-            for vi, (tag, src, args) in enumerate(c.variants):
+            for vi, var in enumerate(c.variants):
+                if isinstance(var, cdrv.Prog):      # compiled elsewhere (C20: other processes / histories)
+                    p = var
+                    p.meta.setdefault("case", c)
+                    if vi == 0:
+                        ins, reps, L = work.inputs_for(c.meta["workload_result"], rng, c.ast, nwalk=nwalk, enum_budget=enum_budget, seeds=c.seeds)
+                        if len(ins) > input_cap:
+                            ins = [x for x in ins if len(x) <= 2][:input_cap // 3] + rng.sample([x for x in ins if len(x) > 2], min(len([x for x in ins if len(x) > 2]), input_cap * 2 // 3))
+                        c.inputs = ins
+                    c.progs.append(p)
+                    continue
+                tag, src, args = var
                 r = nm.compile_source(src, args, name="p%d" % idx)
                 idx += 1
                 if not r.ok:
@@ -135,7 +146,7 @@ def run_cases(ctx, cases, compare, rng, quick, per_batch=28, nwalk=None, enum_bu
                         "reference_trace": trace.describe(ref_items, p0, 30), "other_trace": trace.describe(items, p, 30),
                         "stderr": (other.stderr or ref.stderr or "")[-1200:]})
                 if len(ctx.samples) < 5 and len(ev) >= 2 and len(c.progs) > 1:
-                    ctx.sample({"label": c.label, "variants": [v[2] for v in c.variants][:6], "input": bs.decode("latin-1")[:60],
+                    ctx.sample({"label": c.label, "variants": [(v.meta.get("how") if isinstance(v, cdrv.Prog) else v[2]) for v in c.variants][:6], "input": bs.decode("latin-1")[:60],
                                 "reference_trace": trace.describe(ref_items, p0, 6)})
         batch.cleanup()
 
